@@ -96,6 +96,16 @@ def roundtrip(sess, suite, typ, args, want, pkgval=None):
         else:
             good = jd.ok and jd["v"] == want
         sess.oracle(good, "JSON round trip of %s does not return the value (%s)" % (typ, jd.raw[:80]), [jreq, sess.records[-1][0]])
+        # the same JSON value through serde_json's other entry points, and with an escape inside a string: the
+        # decoders must not depend on borrowing from the input buffer
+        esc = bytes.fromhex(j["j"]).replace(b'"FROST', b'"\\u0046ROST', 1).hex()
+        for via, doc in (("reader", j["j"]), ("value", j["j"]), ("str", esc)):
+            if doc == j["j"] and via == "str":
+                continue
+            jv = sess.call("json_de %s t=%s j=%s via=%s" % (suite, t, doc, via), NONE, "json_de-%s:%s" % (via, t), model=False)
+            okv = same_pkg(jv, args) if t == "package" else (jv.ok and jv["v"] == want)
+            sess.oracle(okv, "JSON round trip of %s through serde_json::from_%s%s does not return the value (%s)" % (typ, via, " with an escaped ciphersuite string" if doc != j["j"] else "", jv.raw[:80]), [jreq, sess.records[-1][0]])
+            sess.count("json-roundtrip-via:" + via + ("-escaped" if doc != j["j"] else ""))
         sess.case("json|" + jreq)
         sess.count("json-roundtrip:" + t)
         json_faults(sess, suite, t, bytes.fromhex(j["j"]).decode())
@@ -291,6 +301,10 @@ def primitives(sess, suite, prim, thorough):
         prim_case(sess, suite, "signature", sg + b"\x00", False, "a valid signature followed by one more byte")
         prim_case(sess, suite, "signature", sg + sg[-n:], False, "a valid signature followed by a second response")
         prim_case(sess, suite, "signature", sg[:-1], False, "a valid signature without its last byte")
+        if suite == "secp256k1-tr":
+            # the x-only form is the only one: the same signature with a SEC1 tag in front (what the default codec would read)
+            for tag in (2, 3):
+                prim_case(sess, suite, "signature", bytes([tag]) + sg, False, "a valid x-only signature with SEC1 tag %02x in front (65 bytes)" % tag)
         for m in deviations(sess, sg, thorough, all_bits_of=(0, -1, len(sg) - n - 1, len(sg) - n)):
             prim_case(sess, suite, "signature", m)
         if suite != "secp256k1-tr":
